@@ -169,6 +169,8 @@ class Session:
                 except Exception as e:  # noqa: BLE001
                     if K.raised_in_harness(e):
                         raise
+            elif kind == "set_grain_model":
+                self.net.grain_model = st["model"]
             elif kind == "set_required":
                 self.net.required_species = list(st["names"])
             elif kind == "set_rate_modifier":
@@ -188,7 +190,10 @@ class Session:
                 # from the very list object the first network holds or from a copy of it.  Editing
                 # the sibling afterwards must not change what the first network renders.
                 src = self.net.reaction_list if st.get("how") == "same_list" else list(self.net.reaction_list)
-                self.sib = N.Network(reactions=src, **self.net_kwargs(None))
+                kw = self.net_kwargs(None)
+                if st.get("grain_model"):
+                    kw["grain_model"] = st["grain_model"]  # the same reactions under another grain model
+                self.sib = N.Network(reactions=src, **kw)
             elif kind == "sib_rm":
                 if self.sib.reaction_list:
                     self.sib.remove_reaction(0)
@@ -206,7 +211,11 @@ class Session:
             elif kind == "sib_render":
                 out = os.path.join(self.dir, "sib_out")
                 shutil.rmtree(out, ignore_errors=True)
-                self.sib.to_code(solver=st["solver"], method=st["method"], device=st["device"], path=out)
+                try:
+                    self.sib.to_code(solver=st["solver"], method=st["method"], device=st["device"], path=out)
+                except Exception as e:  # noqa: BLE001 - whether the sibling can be rendered is not the point
+                    if K.raised_in_harness(e):
+                        raise
             elif kind == "touch":
                 # read-only inspection, as in a notebook
                 _ = [s.alias for s in self.net.species]
